@@ -144,7 +144,10 @@ fn cond_case(out: &mut Out, rng: &mut SplitMix64, skipped: &mut usize, zero_shot
     let mut control = if rng.below(10) == 0 { (0..k).map(|_| rng.below(nc as u64) as usize).collect() } else { pick_distinct(rng, k, nc) };
     if rng.below(12) == 0 { control = (0..nc.min(64)).collect(); if rng.coin() { control.reverse(); } }
     let gather = |w: u64, control: &[usize]| -> u64 { control.iter().enumerate().fold(0u64, |a, (j, &c)| a | (((w >> c) & 1) << (j as u32 & 63))) };
-    let target = if !pre_regs.is_empty() && rng.below(4) != 0 { gather(*rng.pick(&pre_regs), &control) } else { rng.below(1 << k.min(4)) };
+    let mut target = if !pre_regs.is_empty() && rng.below(4) != 0 { gather(*rng.pick(&pre_regs), &control) } else { rng.below(1 << k.min(4)) };
+    // now and then a target the selected bits cannot spell (a bit at position >= control.len()): it must match NO shot,
+    // however its low bits read
+    if k < 60 && rng.below(8) == 0 { target |= 1u64 << (k as u32 + rng.below(3) as u32); }
     let (g, arity) = match rng.below(10) { 0 | 1 | 2 | 3 => ("X", 1), 4 => ("Y", 1), 5 => ("Z", 1), 6 | 7 => ("CX", 2), 8 => ("Swap", 2), _ => ("CCX", 3) };
     let (g, arity) = if arity > nq || (g == "CCX" && !vector) { ("X", 1) } else { (g, arity) };
     let bits = pick_distinct(rng, arity, nq);
@@ -171,7 +174,7 @@ fn cond_case(out: &mut Out, rng: &mut SplitMix64, skipped: &mut usize, zero_shot
         let (c2, t2) = match rng.below(4)
         {
             0 | 1 => (control.clone(), target),
-            2 => (control.clone(), rng.below(1 << k.min(4))),
+            2 => (control.clone(), rng.below(1 << k.min(4)) | if k < 60 && rng.below(4) == 0 { 1u64 << k } else { 0 }),
             _ => { let k2 = 1 + rng.below(3.min(nc) as u64) as usize; let c2 = pick_distinct(rng, k2, nc); (c2, rng.below(1 << k2)) }
         };
         let (g2, a2) = match rng.below(4) { 0 | 1 => ("X", 1), 2 => (g, arity), _ => ("CX", 2) };
